@@ -45,6 +45,21 @@ Proof.
   rewrite (Tm_fuel f (Z.to_nat (advC m k)) (advC m k) k) by lia. reflexivity.
 Qed.
 
+Lemma advC_nonneg m k : 0 <= advC m k.
+Proof.
+  unfold advC. destruct (Z.ltb_spec m 1) as [Hm|Hm]; [unfold n_advance; destruct (Z.ltb_spec m 1); [lia|lia]|].
+  destruct (Z.leb_spec k 0) as [Hk|Hk].
+  - unfold n_advance. destruct (Z.ltb_spec m 1); [lia|]. destruct (Z.leb_spec k 0); [lia|lia].
+  - destruct (n_advance_spec m k tr ltac:(lia) ltac:(lia)) as (a & Ha & H0 & Hr & _). rewrite Ha.
+    destruct (Z.eq_dec m 1) as [->|]; [lia|]. specialize (Hr ltac:(lia)). lia.
+Qed.
+Lemma Tm_nonneg : forall f m k, 0 <= Tm f m k.
+Proof.
+  induction f as [|f IH]; intros m k; cbn [Tm]; [lia|]. destruct (m <=? 1); [lia|].
+  pose proof (advC_nonneg m k). pose proof (IH (m - advC m k) (k - 1)). pose proof (IH (advC m k) k). lia.
+Qed.
+Lemma TC_nonneg m k : 0 <= TC m k. Proof. apply Tm_nonneg. Qed.
+
 (* the schedule's extra steps *)
 Definition EhC (m k : Z) : Z := TC m k - m.
 Lemma EhC_1 k : EhC 1 k = 0. Proof. reflexivity. Qed.
